@@ -35,7 +35,8 @@ PROBES = ["derived_object_as_base_argument", "same_object_two_handles", "delete_
           "unload_clear_all", "returned_object_kept", "by_value_object_argument", "raw_pointer_argument",
           "shared_pointer_argument", "default_argument_omitted", "illformed_call_refused", "pair_return",
           "property_roundtrip", "inherited_method_called", "enum_argument", "enum_return",
-          "retained_object_returned_twice", "calls_after_unload", "nonconst_reference_argument"]
+          "retained_object_returned_twice", "calls_after_unload", "nonconst_reference_argument",
+          "uint64_argument_above_2_53"]
 
 
 def batches(tier):
@@ -246,6 +247,12 @@ class Hist:
                     return S.MInt("int32", v), "i:%d" % v
                 return S.MDouble.scalar(v), "i:%d" % v
             if ty.name == "size_t":
+                if t.bool(0.3, "uint64-for-size_t"):
+                    # MATLAB integer arrays (e.g. GTSAM keys) are numeric too and must arrive exactly
+                    v = t.pick([7, 9007199254740993, 8646911284551352321, 18446744073709551615, 4294967296],
+                               "u64-val")
+                    self.pr("uint64_argument_above_2_53")
+                    return S.MInt("uint64", v), "z:%d" % v
                 v = t.pick([0, 1, 9, 77, 4096], "size-val")
                 return S.MDouble.scalar(v), "z:%d" % v
             if ty.name == "double":
